@@ -560,12 +560,94 @@ impl CaseSpace for C12 {
     }
 }
 
+// ---------------------------------------------------------------------------------------
+// correlation across a solicited series
+// ---------------------------------------------------------------------------------------
+
+/// a READ answered in several fragments, each confirmed: fragment k carries the request's
+/// sequence number + k (modulo 16) and is the one whose confirm is awaited
+struct SeriesNumbers;
+
+impl crate::explore::CaseSpace for SeriesNumbers {
+    fn name(&self) -> String {
+        "solicited-series-numbering".into()
+    }
+    fn total(&self) -> usize {
+        16 * 2
+    }
+    fn run(&self, index: usize, transcript: bool) -> RunResult {
+        let mut res = RunResult::default();
+        let seq0 = (index % 16) as u8;
+        let tx = [249usize, 300][index / 16];
+        res.obs = index as u64 + 121212;
+        let cfg = OCfg { sol_tx: tx, unsol_tx: tx, event_buf: [10; 8], ..Default::default() };
+        let mut sim = OSim::new(&cfg, 1);
+        sim.db(|db| {
+            common::add_analogs(db, 150, None);
+        });
+        sim.take_out();
+        sim.send(&app::request(seq0, fc::READ, &app::hdr_all(60, 1)));
+        let mut k = 0u8;
+        let mut done = false;
+        for _ in 0..12 {
+            let rs: Vec<app::Resp> = sim.take_out().iter().filter_map(|t| t.frag()).filter_map(app::Resp::parse).collect();
+            if rs.is_empty() {
+                break;
+            }
+            for r in rs {
+                res.transitions += 1;
+                if transcript {
+                    res.transcript.push(format!("<- {} ({} octets)", app::hex(&r.raw[..4]), r.raw.len()));
+                }
+                let want = (seq0 + k) & 0x0F;
+                if r.uns() || r.seq() != want || r.fir() != (k == 0) || r.raw.len() > tx {
+                    res.violation = Some(Violation::new(
+                        "C12.S3",
+                        "series-fragment-not-correlated-with-its-request",
+                        format!("READ with sequence {seq0}, transmit size {tx}: fragment {} is {} ({} octets), expected sequence {want} FIR={}", k + 1, app::hex(&r.raw[..4]), r.raw.len(), k == 0),
+                    ));
+                    return res;
+                }
+                k += 1;
+                if r.fin() {
+                    done = true;
+                } else if !r.con() {
+                    res.violation = Some(Violation::new("C12.S3", "non-final-fragment-without-confirm-request", app::hex(&r.raw[..4])));
+                    return res;
+                } else {
+                    sim.send(&app::confirm(want, false));
+                }
+            }
+            if done {
+                break;
+            }
+        }
+        if let Some(f) = sim.failure() {
+            res.violation = Some(Violation::new("C12.X0", f.clone(), f));
+            return res;
+        }
+        if !done || k < 3 {
+            res.violation = Some(Violation::new("C12.S3", "series-incomplete", format!("READ with sequence {seq0}: {k} fragments, final seen: {done}")));
+            return res;
+        }
+        res.nontrivial = true;
+        res.model_states.push(k as u64);
+        res
+    }
+}
+
 pub fn replay(space: &str, path: &[usize]) -> Option<RunResult> {
     for tier in ["quick", "thorough"] {
         for s in build(tier) {
             if s.name == space {
                 return Some(s.run(path[0], true));
             }
+        }
+    }
+    {
+        use crate::explore::CaseSpace;
+        if SeriesNumbers.name() == space {
+            return Some(SeriesNumbers.run(path[0], true));
         }
     }
     None
@@ -576,9 +658,10 @@ pub fn check(tier: &str) -> i32 {
     for s in build(tier) {
         c.cases(&s);
     }
+    c.cases(&SeriesNumbers);
     c.finish(
         "model_checking",
-        "finite product: session state {idle, solicited confirm wait, unsolicited confirm wait} x function code 0..=255 x 16 header-flag combinations x sequence {0,15} x per-function object menu (accepted / rejected / unparsable headers; all ordered pairs for functions 1..=30) plus requests sized around the transmit and receive limits; each case drives the real OutstationTask into the state, delivers the request and pairs it with every fragment transmitted afterwards; non-trivial = a response was produced or silence was the required outcome; distinct = distinct observation trace",
+        "finite product: session state {idle, solicited confirm wait, unsolicited confirm wait} x function code 0..=255 x 16 header-flag combinations x sequence {0,15} x per-function object menu (accepted / rejected / unparsable headers; all ordered pairs for functions 1..=30) plus requests sized around the transmit and receive limits, a configured READ header limit, and a multi-fragment READ series from each of the 16 sequence numbers (fragment k carries sequence + k); each case drives the real OutstationTask into the state, delivers the request and pairs it with every fragment transmitted afterwards; non-trivial = a response was produced or silence was the required outcome; distinct = distinct observation trace",
         &[
             "fragments shorter than 2 bytes and fragments carrying a response function code are not treated as requests (no reply is demanded for them)",
             "handler-reported command statuses are not counted as rejected headers (they are reported in the echoed objects)",
